@@ -115,15 +115,20 @@ struct Inputs {
     std::vector<std::vector<E> > store;                       // real elements + 1 sentinel slot
     std::vector<std::pair<E*, E*> > seqs;                     // what is handed to tlx
     std::vector<E*> begins, ends;
-    void build(const Shape& sh) {
+    bool has_slot = true;
+    //! with_sentinel_slot = false: the sequences end exactly at the end of their heap block, so an
+    //! entry point that is not entitled to a sentinel and still reads one is an ASan report
+    void build(const Shape& sh, bool with_sentinel_slot = true) {
+        has_slot = with_sentinel_slot;
         store.resize(sh.k);
         seqs.resize(sh.k);
         begins.resize(sh.k);
         ends.resize(sh.k);
         for (unsigned s = 0; s < sh.k; ++s) {
-            store[s].resize(sh.keys[s].size() + 1);
+            std::vector<E> v(sh.keys[s].size() + (with_sentinel_slot ? 1 : 0));
+            store[s].swap(v);   // capacity == size
             for (size_t p = 0; p < sh.keys[s].size(); ++p) store[s][p].set(sh.keys[s][p], s, (unsigned)p);
-            store[s].back().set(sh.descending ? -INF : INF, CANARY_SEQ, 0);   // strictly beyond all real keys
+            if (with_sentinel_slot) store[s].back().set(sh.descending ? -INF : INF, CANARY_SEQ, 0);   // strictly beyond all real keys
             begins[s] = store[s].data();
             ends[s] = store[s].data() + sh.keys[s].size();
             seqs[s] = { begins[s], ends[s] };
@@ -189,7 +194,7 @@ inline std::string check_result(const Shape& sh, const Inputs<E>& in, const std:
             const E& e = in.store[s][p];
             if (e.key != sh.keys[s][p] || e.get_seq() != s || e.get_pos() != p) { detail = "input element modified"; return "input-modified"; }
         }
-        if (in.store[s].back().get_seq() != CANARY_SEQ) { detail = "sentinel slot overwritten"; return "sentinel-modified"; }
+        if (in.has_slot && in.store[s].back().get_seq() != CANARY_SEQ) { detail = "sentinel slot overwritten"; return "sentinel-modified"; }
     }
     return "";
 }
